@@ -2,36 +2,24 @@ package main
 
 import (
 	"fmt"
-	"math"
-	"math/rand"
+
+	"github.com/golang/geo/s2"
 )
 
-func stToUV(s float64) float64 {
-	if s >= 0.5 {
-		return (1 / 3.) * (4*s*s - 1)
-	}
-	return (1 / 3.) * (1 - 4*(1-s)*(1-s))
-}
-func uvToST(u float64) float64 {
-	if u >= 0 {
-		return 0.5 * math.Sqrt(1+3*u)
-	}
-	return 1 - 0.5*math.Sqrt(1-3*u)
+func try(name string, f func()) {
+	defer func() {
+		if r := recover(); r != nil {
+			fmt.Printf("%-30s PANIC: %v\n", name, r)
+		}
+	}()
+	f()
 }
 func main() {
-	eps := math.Pow(2, -52)
-	worst := 0.0
-	var wu float64
-	r := rand.New(rand.NewSource(1))
-	for k := 0; k < 300000000; k++ {
-		u := r.Float64()*2 - 1
-		if k%3 == 0 {
-			u = math.Copysign(1-r.Float64()*1e-3, u)
-		}
-		d := math.Abs(stToUV(uvToST(u))-u) / eps
-		if d > worst {
-			worst, wu = d, u
-		}
-	}
-	fmt.Println(worst, wu)
+	p := s2.FullPolygon()
+	pt := s2.PointFromCoords(1, 0, 0)
+	c := s2.CellFromCellID(s2.CellIDFromFace(0))
+	try("ContainsPoint", func() { fmt.Println("ContainsPoint", p.ContainsPoint(pt)) })
+	try("ContainsCell", func() { fmt.Println("ContainsCell", p.ContainsCell(c)) })
+	try("IntersectsCell", func() { fmt.Println("IntersectsCell", p.IntersectsCell(c)) })
+	try("Contains", func() { fmt.Println("Contains", p.Contains(s2.PolygonFromLoops([]*s2.Loop{s2.LoopFromCell(c)}))) })
 }
